@@ -36,4 +36,9 @@ static inline void X__ZSt17__throw_bad_allocv(void){ __ir2c_thrown=1; }
 static inline void X__ZSt28__throw_bad_array_new_lengthv(void){ __ir2c_thrown=1; }
 static inline void X__ZSt20__throw_length_errorPKc(uint8_t* m){ __ir2c_thrown=1; }
 static inline void X__ZNSt9bad_allocD1Ev(uint8_t* p){}
+static inline uint8_t* X___cxa_begin_catch(uint8_t* p){ __ir2c_thrown=0; return p; }
+static inline void X___cxa_end_catch(void){}
+static inline void X___cxa_rethrow(void){ __ir2c_thrown=1; }
+static inline void X__ZSt9terminatev(void){ __ir2c_unreachable(); }
+static inline void X___clang_call_terminate(uint8_t* p){ __ir2c_unreachable(); }
 #endif
